@@ -729,12 +729,11 @@ func (c *Codec) DecodeStream(reader io.Reader) (framer.Frame, error) {
 			return errors.Newf("unknown channel key: %v", key)
 		}
 		s.DataType = dataType
-		if dataType.IsVariable() {
-			s.Data = make([]byte, dataLenOrSize)
-		} else {
-			s.Data = make([]byte, dataType.Density().Size(int64(dataLenOrSize)))
+		size := int64(dataLenOrSize)
+		if !dataType.IsVariable() {
+			size = int64(dataType.Density().Size(size))
 		}
-		if _, err = c.reader.Read(s.Data); err != nil {
+		if s.Data, err = c.readData(size); err != nil {
 			return err
 		}
 		if !fgs.equalTimeRanges {
@@ -774,6 +773,34 @@ func (c *Codec) DecodeStream(reader io.Reader) (framer.Frame, error) {
 		if err = decodeSeries(channel.Key(k)); err != nil {
 			return framer.Frame{}, err
 		}
+	}
+}
+
+// maxDecodePrealloc bounds how much memory is allocated for the data of a series
+// before any of its bytes have been read.
+const maxDecodePrealloc = 1 << 20
+
+// readData reads exactly n bytes of series data using the codec's reader. The length
+// of a series comes from the wire, so it is not trusted as an allocation size: the
+// buffer starts at no more than maxDecodePrealloc bytes and at most doubles each time
+// the bytes it was grown for have actually arrived.
+func (c *Codec) readData(n int64) ([]byte, error) {
+	data := make([]byte, min(n, maxDecodePrealloc))
+	read := 0
+	for {
+		m, err := c.reader.Read(data[read:])
+		read += m
+		if err != nil {
+			if read > 0 && errors.Is(err, io.EOF) {
+				// Same error a single io.ReadFull of n bytes reports for a short read.
+				err = io.ErrUnexpectedEOF
+			}
+			return nil, err
+		}
+		if int64(read) == n {
+			return data, nil
+		}
+		data = append(data, make([]byte, min(n-int64(read), int64(read)))...)
 	}
 }
 
